@@ -121,6 +121,8 @@ def record_episode(rng: random.Random, ep: int) -> dict | None:
     rng.shuffle(order)
     how = rng.choice(PRESENTATIONS)
     tens = [B.node(t) for t in tensors]
+    from .programs import relayout
+    tens = [relayout(t, 1) if (t.dim() >= 2 and rng.random() < 0.3) else t for t in tens]     # dense, non-row-major views
     if rows >= 4 and rng.random() < 0.5:                # same rows, passed as the list of their scalars
         tens = [t.reshape(-1)[i] for t in tens for i in range(t.numel())]
     try:
